@@ -335,6 +335,38 @@ def generate(repo=REPO, gen=GEN):
                "import MetapypeModel.Model.Tree\nnamespace Metapype.Gen\nopen Metapype\n\n"
                "def witnesses : List (String × Tree) := [\n" + ",\n".join(wl) + "\n]\n\nend Metapype.Gen\n")
 
+
+    # ---- for every rule and every child name it mentions: a candidate word of the rule's language containing the name
+    # (untrusted search; Props/C17.lean checks each with the matcher by kernel evaluation)
+    nw = []
+    for rn, sp in specs.items():
+        if sp is None:
+            continue
+        nms = list(dict.fromkeys(_lang.names(sp)))
+        mixed_r = rn in mixed
+        for nm in nms:
+            found = None
+            base = _lang.min_word(sp) or []
+            cands = [base[:i] + [nm] + base[i:] for i in range(len(base) + 1)]
+            cands += [[nm]]
+            import random as _r
+            rr = _r.Random(12345)
+            for _ in range(200):
+                w = _lang.sample_word(sp, rr, rep=2)
+                if w is not None and nm in w:
+                    cands.append(w)
+            cands.sort(key=len)
+            for w in cands:
+                if nm in w and _lang.in_lang(sp, w, True, mixed_r):
+                    found = w
+                    break
+            if found is not None:
+                nw.append((rn, nm, found))
+    txt_nw = ("-- GENERATED by translator/gen_tables.py. Candidate words; checked by the kernel in Props/C17.lean.\n"
+              "namespace Metapype.Gen\n\n/-- (rule, child name, a child sequence containing it that the rule accepts) -/\n"
+              "def nameWitnesses : List (String × String × List String) := [\n  " +
+              ",\n  ".join(f"({lstr(a)}, {lstr(b)}, {llist([lstr(x) for x in w])})" for a, b, w in nw) + "\n]\n\nend Metapype.Gen\n")
+
     # ---- known findings that weaken a full-strength theorem (generated from known_findings.json)
     kf_path = os.path.join(HERE, "..", "known_findings.json")
     c10 = []
@@ -359,6 +391,8 @@ def generate(repo=REPO, gen=GEN):
         changed.append("Witness.lean")
     if write_if_changed(os.path.join(gen, "Findings.lean"), txt_find):
         changed.append("Findings.lean")
+    if write_if_changed(os.path.join(gen, "NameWitness.lean"), txt_nw):
+        changed.append("NameWitness.lean")
     return changed
 
 
